@@ -538,7 +538,47 @@ def run_kani_unit(uid, cfg, tier='quick'):
     return res
 
 
+def run_native_unit(uid, cfg, tier='quick'):
+    """Witness search: the extracted real code compiled natively and driven over a pool of small inputs.  It can only
+    produce a concrete failing input (status 'fail'); exhausting the pool is reported as 'pass' but decides nothing."""
+    t0 = time.time()
+    res = {'unit': uid, 'backend': 'native-witness-search', 'title': cfg.get('title', ''), 'status': 'undecided', 'reason': '',
+           'obligations': 0, 'discharged': 0, 'failed': [], 'clauses': [], 'items': [], 'functions': [], 'cmd': '',
+           'time_s': 0.0, 'smt_time_s': 0.0, 'scan': {}, 'rules_fired': {}, 'bounded': [],
+           'assumptions': cfg.get('assumptions', []), 'not_covered': cfg.get('not_covered', []), 'harnesses': []}
+    try:
+        crate, meta = prepare_kani_crate(uid, cfg)
+    except (G.GenError, G.LexError, OSError) as e:
+        res['reason'] = 'extraction: %s' % e
+        return res
+    res['items'] = meta['items']
+    env = dict(os.environ)
+    env['CARGO_NET_OFFLINE'] = 'true'
+    env['CARGO_TARGET_DIR'] = os.path.join(BUILD, 'native-target', uid)
+    seed = os.environ.get('VERIF_SEED', '0') or '0'
+    cmd = ['cargo', '+' + cfg.get('toolchain', 'nightly-2025-03-28'), 'run', '--offline', '--quiet', '--bin', cfg['bin'], '--', seed]
+    res['cmd'] = ' '.join(cmd)
+    rc, so, se, wall, to = limited(cmd, cfg.get('mem_gb', 8), cfg.get('timeout_s', 900), cwd=crate, env=env)
+    if to:
+        res['reason'] = 'witness search timed out'
+    elif 'WITNESS ' in so:
+        w = so[so.index('WITNESS ') + 8:].split('\n')[0]
+        clause = re.sub(r'[^a-z0-9\-]+', '-', w.split(':')[0].lower())[:40]
+        res['status'] = 'fail'
+        res['failed'] = [{'id': '%s.witness.%s' % (uid, clause), 'kind': 'concrete-failing-input', 'message': w,
+                          'witness_text': w, 'rendered': 'native run of the extracted real code: ' + w}]
+    elif 'NO-WITNESS' in so:
+        res['status'] = 'pass'
+        res['bounded'] = [{'harness': cfg['bin'], 'bound': cfg.get('pool', 'input pool'), 'checks': 0, 'verdict': 'NO-WITNESS'}]
+    else:
+        res['reason'] = 'witness driver did not run: %s' % (se[-400:] or so[-200:])
+    res['time_s'] = time.time() - t0
+    return res
+
+
 def run_unit(uid, cfg, tier='quick'):
+    if cfg['kind'] == 'native':
+        return run_native_unit(uid, cfg, tier)
     if cfg['kind'] == 'verus':
         return run_verus_unit(uid, cfg, tier)
     if cfg['kind'] == 'kani':
